@@ -673,6 +673,10 @@ class Translator:
                     and (f.attr + "()") in env[f.value.id][1]:
                 # a call made for its effect on the caches only (C03 models the effect); no value is used
                 return self.block(rest, env, cfg, tail)
+            if isinstance(f, ast.Attribute) and isinstance(f.value, ast.Name) and f.value.id in ("logging", "logger", "log") \
+                    and f.value.id not in env and f.attr in ("debug", "info", "warning", "error", "critical", "log"):
+                # a logging call: no effect on any value the kernels compute
+                return self.block(rest, env, cfg, tail)
             self.fail(st, "expression statement with side effects")
         self.fail(st, type(st).__name__)
 
